@@ -236,6 +236,16 @@ def gen_c13_value(rng):
     return values.gen_value(rng)
 
 
+def deep_path_values():
+    """objects whose classes live two packages below django.db.models and are exported by none of the packages above
+    (models.fields.json.KeyTextTransform): the written path has to be the whole path"""
+    from django.db.models import F
+    from django.db.models.fields.json import KeyTextTransform, KeyTransform
+    from django.db.models.functions import Lower
+    return [KeyTextTransform('k', 'data'), KeyTransform('k', 'data'), Lower(KeyTextTransform('k', 'data')),
+            [F('a') + 1, KeyTextTransform('name', 'extra')]]
+
+
 def value_level(ctx, n):
     pyr = ctx.variant.get('py_rendering', {})
     cfg = {'separators': [list(p) for p in ctx.variant.get('q_separators', [])],
@@ -250,7 +260,7 @@ def value_level(ctx, n):
     vals = [Q(), ~Q(), Q(a=1), ~Q(a=1), Q(a=1) | Q(b=2), ~(Q(a=1) & Q(b=2)), (Q(a=1) | Q(b=2)) & Q(c=3),
             Q(a=1) & (Q(b=2) | ~Q(c=3)), F('a') + 1, (F('a') + F('b')) * F('c'), F('a') + F('b') * F('c'),
             F('a') - (F('b') - F('c')), (F('a') - F('b')) - F('c'), Value("it's"), [Q(a="q\"uote") | Q(b='back\\slash')],
-            {'k': (1, 'x'), 'a': [None, True]}, OrderedDict([('z', 1), ('a', Q(x=1))])] + vals
+            {'k': (1, 'x'), 'a': [None, True]}, OrderedDict([('z', 1), ('a', Q(x=1))])] + deep_path_values() + vals
     absd = [abs13(v) for v in vals]
     reqs = [dict(cfg, op='py_roundtrip', value=a) for a in absd]
     outs = ctx.driver.ask(reqs) if ctx.driver else [None] * len(vals)
